@@ -1,0 +1,35 @@
+//go:build verif && !js
+
+package websocket
+
+import "io"
+
+// Test-only exports for unit-level conformance replay (build tag verif).
+
+func VerifMaskGo(b []byte, key uint32) uint32 { return maskGo(b, key) }
+
+func VerifMask(b []byte, key uint32) uint32 { return mask(b, key) }
+
+type VerifTrimWriter struct{ tw *trimLastFourBytesWriter }
+
+func VerifNewTrimWriter(w io.Writer) *VerifTrimWriter {
+	return &VerifTrimWriter{tw: &trimLastFourBytesWriter{w: w}}
+}
+func (t *VerifTrimWriter) Write(p []byte) (int, error) { return t.tw.Write(p) }
+func (t *VerifTrimWriter) Reset()                      { t.tw.reset() }
+func (t *VerifTrimWriter) Tail() []byte                { return t.tw.tail }
+
+type VerifSlidingWindow struct{ sw slidingWindow }
+
+func VerifNewSlidingWindow(n int) *VerifSlidingWindow {
+	s := &VerifSlidingWindow{}
+	s.sw.init(n)
+	return s
+}
+func (s *VerifSlidingWindow) Write(p []byte) { s.sw.write(p) }
+func (s *VerifSlidingWindow) Buf() []byte    { return s.sw.buf }
+func (s *VerifSlidingWindow) Close()         { s.sw.close() }
+
+func VerifParseClosePayload(p []byte) (CloseError, error) { return parseClosePayload(p) }
+func VerifValidWireCloseCode(code StatusCode) bool        { return validWireCloseCode(code) }
+func VerifCloseBytes(ce CloseError) ([]byte, error)       { return ce.bytesErr() }
